@@ -29,5 +29,7 @@ SEEDED = [
     ("C15-3", "C15-SHARED"),
     ("C15-4", "C15-PATCH"),
     ("C15-5", "C15-RES"),
+    ("C15-6", "C15-HOLD"),
+    ("C15-7", "C15-SETTERS"),
 ]
 MUTANTS = list(MUTANTS) + [_P("seed-" + sid, _os.path.join(_SEEDS, sid, "patch.diff"), rule) for sid, rule in SEEDED if _os.path.exists(_os.path.join(_SEEDS, sid, "patch.diff"))]
